@@ -94,10 +94,23 @@ def run_clippy_xref(ctx):
     return {'clippy_sites': len(sites), 'inventory_sites': len(inv), 'clippy_sites_missing_from_inventory': unknown[:20], 'ran': r.returncode == 0}
 
 
+def run_benign(prop):
+    """behaviour-preserving refactorings written by independent agents must not raise an alarm of this property"""
+    import selftest
+    rs = selftest.run_benign_for(prop)
+    out = {'refactorings': len(rs), 'silent': sum(1 for r in rs if r['status'] == 'silent-ok'),
+           'accepted_alarms': [r['variant'] for r in rs if r['status'] == 'accepted-alarm'],
+           'false_alarms': [{'variant': r['variant'], 'fired': r['fired'][:3]} for r in rs if r['status'] == 'FALSE-ALARM']}
+    for r in out['false_alarms']:
+        print("SELFTEST: behaviour-preserving refactoring %s raised an alarm of %s: %s" % (r['variant'], prop, r['fired'][:2]))
+    return out
+
+
 def run(prop, ctxs, seed):
     extra = {}
     t0 = time.time()
     extra['selftest'] = run_selftest(prop)
+    extra['benign_refactorings'] = run_benign(prop)
     w = run_witnesses(prop)
     if w is not None:
         extra['witnesses'] = w
